@@ -21,7 +21,7 @@ CLAIMS = {
  "C03": ("TLC model checking of FsDb.tla (CommitAsPromised, Refines) + replay of emitted behaviours containing Commit/Rollback",
          "Commit result class and the autocommit read matrix after every Commit/Rollback are compared with the promise on all enumerated histories with overlapping write sets.", "6 C03"),
  "C04": ("TLC invariants on FsDbCrash.tla (one step per persistent mutation, kill before any of them, also inside recovery, two kills) + every emitted workload executed in child processes killed by SIGKILL before every mutation, recovered state compared with acknowledged prefix +- whole in-flight call",
-         "All workloads of 3-5 calls (autocommit and transactional Set/Delete, multi-key Commit, Rollback, collector) are enumerated by TLC; the real code is killed before each of its persistent mutations (file create/write/close/remove, mkdir, Badger set/delete/transaction), reopened in fresh processes twice, and killed again inside recovery; the mutation labels logged by the real code must be the specification's.", "6 C04"),
+         "All workloads of 3-5 calls (autocommit and transactional Set/Delete, multi-key Commit, Rollback, collector) are enumerated by TLC; the real code is killed before each of its persistent mutations (file create/write/close/remove, mkdir, Badger set/delete/transaction), reopened in fresh processes twice, and killed again inside recovery; the mutation labels logged by the real code must be the specification's (a mismatch is drift). Also: a kill immediately after every acknowledgement, and a commit of 1001..5000 keys killed before each persistent mutation its Commit makes (Bulk.tla, mode commitcrash).", "6 C04"),
  "C05": ("TLC model checking of Reopen.tla (instances x processes x sequence counter) and FsDb.tla with Close/Open at every position + replay in real OS processes; a TLAPS proof of LastWriteWins for any number of instances, keys, processes and steps (proofs/ReopenProof.tla)",
          "Every script of open/close/write/delete/new-process over 1-2 database instances up to the stated length is enumerated by TLC and executed in fresh child processes over the same directories; in-process Close/Open is inserted at every position of transactional histories.", "6 C05"),
  "C06": ("controlled-scheduler executions of the real code (all schedules up to a preemption bound + seeded random) validated by TLC against LinTrace.tla: linearizability w.r.t. the L0 promise; deadlock = all actors blocked",
@@ -33,7 +33,7 @@ CLAIMS = {
  "C09": ("TLC action property GCInvisible + ReadableHasContent on FsDb.tla, replay of behaviours with the collector at every position; blame by ablation of the GC steps",
          "The collector is enabled at every state of the bounded model; in the real code all reads of all open transactions are compared before/after and for the rest of the behaviour, and a disagreement that disappears when the GC steps are left out is attributed to the collector. A reader held open (ROpen/RFinish in the specification) across overwrites, ends of transactions and collections must deliver the content it began with.", "6 C09"),
  "C10": ("TLC invariants on SetRetry.tla (no-space continuation over roots: success is exact, continues where there is room) and Upload.tla (an aborted upload leaves no trace, nobody sees a prefix) + every emitted fault scenario executed on the real code (write-fault and free-space hooks; failing reader, cancelled context, cut connection through a proxy)",
-         "Every combination of free-space ranks, fault position (each file write call) and kind (nothing written / half a chunk written) on 2-3 roots, and every position of reader error / cancellation / connection cut in uploads of several lengths, through inline Set/SetReader/Create and the gRPC client; afterwards an independent client reads the key.", "6 C10"),
+         "Every combination of free-space ranks, fault position (each file write call) and kind (nothing written / half a chunk written) on 2-3 roots, and every position of reader error / cancellation / connection cut in uploads of several lengths, through inline Set/SetReader/Create and the gRPC client; afterwards an independent client reads the key, and the database is closed and opened again: a failed write must stay failed. Cut connections are repeated many times (whether gRPC replays on the re-dialled connection depends on the moment); an upload that does not return is a hang verdict.", "6 C10"),
  "C11": ("the L1 behaviours emitted by TLC are replayed through external.Open against the real gRPC server and through the inline client; a disagreement only the external run shows is a C11 violation",
          "All behaviours of the C01/C02/C03/C13 families up to the stated depth are executed through both clients (contents across the 2048-byte chunk boundary, all four levels, late operations, server restarts) and compared step by step with the L0 promise by errors.Is classes and byte equality. ErrMap.tla enumerates error values (sets of sentinels) through the server and client adapters in every wrapping shape; Upload.tla's early server verdicts (empty key, no space) must reach the caller whenever they arrive; Download.tla: a read over a cut connection or cancelled context ends with an error or with the whole content; a header-less upload is refused as ErrHeaderNotFound.", "6 C11"),
  "C12": ("TLC on AsyncRW.tla (one action per segment between two gates of read_writer.go; safety Concatenation, no stuck state, liveness CloseReturns) + every emitted schedule replayed step by step on the real readWriter + inline Create end to end under controlled schedules",
